@@ -142,6 +142,48 @@ Theorem C20_const_operand_expr : forall w cx v tn n, 0 <= n ->
   = if csup w n then Done (VGA n (copies v n), []) else CompileError ENoConstLen.
 Proof. exact arr_rep_const_operand_expr. Qed.
 
+(* ---- unsafe hygiene: no fragment written by the caller ends up inside an `unsafe { }` block of an expansion
+        (element and length expressions are compiled in the safety context the caller wrote them in): for every
+        argument list of every length, and for both repeat forms with any caller-written length; the arms as data
+        have no metavariable under an unsafe block; wrapping the call of the local helper fn in `unsafe { }`
+        instead (a `const unsafe fn` helper) would put $x inside ---- *)
+Theorem C20_unsafe_hygiene_lists : forall us trailing,
+  (exists t, expand crate_decls MArr (InList (map mk_user us) trailing) = Some t /\ exposed false t = false) /\
+  (exists t, expand crate_decls MBoxArr (InList (map mk_user us) trailing) = Some t /\ exposed false t = false).
+Proof. exact unsafe_hygiene_lists. Qed.
+
+Theorem C20_unsafe_hygiene_repeat : forall m tag v c n, is_caller n = true ->
+  match expand crate_decls m (InSemi (User tag v c) n) with
+  | Some t => exposed false t = false
+  | None => True
+  end.
+Proof. exact unsafe_hygiene_repeat. Qed.
+
+Theorem C20_arms_hygienic :
+  forallb (fun a => negb (exposed false (arm_body a)))
+          (arms_of crate_decls MArr ++ arms_of crate_decls MBoxArr ++ arms_of crate_decls MBoxArrHelper) = true.
+Proof. exact arms_hygienic. Qed.
+
+Theorem C20_unsafe_call_refuted :
+  exposed false arr_rep_ty_arm_unsafe_call = true /\
+  forall tag v c k, exposed false (subst (upd_bind (upd_bind no_bind MVx (One (User tag v c))) MVN (One (TyLen k)))
+                                         arr_rep_ty_arm_unsafe_call) = true.
+Proof. exact unsafe_call_refuted. Qed.
+
+
+(* ---- KNOWN FINDING (known_findings.txt, C20 via 11): a list element compiled out by `#[cfg(any())]`.  The faithful
+        model of the arms reaches `unwrap_unchecked` on `Err` for box_arr!, while arr! with the same arguments (and
+        box_arr! without the element) yield the one-element array: "box_arr! with the same arguments yields a Box
+        holding an equal array" fails on this input.  Replayed on the crate: harness case [6, 2, 0, 0, 11]. ---- *)
+Theorem C20_box_list_cfg_out_refuted :
+  run crate_decls w_all Runtime MArr (InList [CfgOut (User 0 3 false); User 1 10 false] 0)
+    = Done (VGA 1 [VE 10], [LEval 1]) /\
+  run crate_decls w_all Runtime MBoxArr (InList [User 1 10 false] 0)
+    = Done (VBox 1 [VE 10], [LEval 1]) /\
+  run crate_decls w_all Runtime MBoxArr (InList [CfgOut (User 0 3 false); User 1 10 false] 0) = UBhit.
+Proof. exact box_list_cfg_out_refuted. Qed.
+
+
 (* ---- tie to the current source: the arms of arr!, box_arr!, box_arr_helper! (matcher shape and
    transcriber term) and the const-ness of from_array / const_transmute / try_from_vec /
    __from_vec_helper, regenerated by tools/ga2coq from src/arr.rs, src/lib.rs, src/impl_alloc.rs on
